@@ -1008,4 +1008,104 @@ theorem dcTail_spec (C n dn W D Qup qh qn0 : Nat) (ok0 : Bool) (recur : Nat → 
       omega
     · rw [hnsum, Nat.add_comm sl sh, pow_add]; ring
 
+/-! ## the exact reduction loop dc_divappr_q.c:64-70 -/
+
+theorem redStep_spec (T dn sh Wt D : Nat) (hT : 6 ≤ T) (hdn : 3 ≤ dn) (hsh1 : 1 ≤ sh) (hshdn : sh ≤ dn)
+    (hD : D < B ^ dn) (hnorm : B ^ dn ≤ 2 * D) (hWt : Wt < D * B ^ sh) :
+    (if sh ≤ T then sbQr (dn + sh) dn Wt D else dcDivQr T (dn + sh) dn Wt D).ok = true ∧
+    (if sh ≤ T then sbQr (dn + sh) dn Wt D else dcDivQr T (dn + sh) dn Wt D).q = Wt / D ∧
+    (if sh ≤ T then sbQr (dn + sh) dn Wt D else dcDivQr T (dn + sh) dn Wt D).r = Wt % D := by
+  have hD0 : 0 < D := by
+    have := Bpow_pos dn; omega
+  have hq : Wt / D < B ^ sh := by rw [Nat.div_lt_iff_lt_mul hD0, Nat.mul_comm]; exact hWt
+  have hN : Wt < B ^ (dn + sh) := by
+    rw [pow_add]
+    have : D * B ^ sh ≤ B ^ dn * B ^ sh := Nat.mul_le_mul_right _ hD.le
+    omega
+  have hhalf : B ^ dn / 2 ≤ D := by omega
+  by_cases h : sh ≤ T
+  · rw [if_pos h]
+    unfold sbQr
+    simp only [Nat.add_sub_cancel_left]
+    refine ⟨?_, Nat.mod_eq_of_lt hq, trivial⟩
+    simp [hhalf, hD, hN]; omega
+  · rw [if_neg h]
+    obtain ⟨⟨ok, id, hr, hq', hqh, _⟩, _⟩ := dcDivQr_spec T (dn + sh) dn Wt D hT (by omega) (by omega) hnorm hD hN
+    rw [Nat.add_sub_cancel_left] at id hq'
+    obtain ⟨e1, e2⟩ := Mpir.DivWord.divmod_of_eq Wt D _ _ id hr
+    generalize dcDivQr T (dn + sh) dn Wt D = r at *
+    have hqh0 : r.qh = 0 := by
+      rcases Nat.eq_zero_or_pos r.qh with h0 | h0
+      · exact h0
+      · exfalso
+        have : 1 * B ^ sh ≤ r.qh * B ^ sh := Nat.mul_le_mul_right _ h0
+        omega
+    rw [hqh0, Nat.zero_mul, Nat.zero_add] at e1
+    exact ⟨ok, e1.symm, e2.symm⟩
+
+theorem redLoop_spec (T dn D : Nat) (hT : 6 ≤ T) (hdn : 3 ≤ dn) (hD : D < B ^ dn) (hnorm : B ^ dn ≤ 2 * D) :
+    ∀ (fuel qn W Qup : Nat) (ok : Bool), dn - 1 ≤ qn → qn - (dn - 1) ≤ fuel → W < D * B ^ qn →
+      (redLoop T dn D fuel qn W Qup ok).1 = dn - 1 ∧ (redLoop T dn D fuel qn W Qup ok).2.2.2 = ok ∧
+      ∃ Qr, Qr < B ^ (qn - (dn - 1)) ∧ (redLoop T dn D fuel qn W Qup ok).2.2.1 = Qup * B ^ (qn - (dn - 1)) + Qr ∧
+        W = Qr * D * B ^ (dn - 1) + (redLoop T dn D fuel qn W Qup ok).2.1 ∧
+        (redLoop T dn D fuel qn W Qup ok).2.1 < D * B ^ (dn - 1)
+  | 0, qn, W, Qup, ok, h1, h2, hW => by
+    have e : qn = dn - 1 := by omega
+    subst e
+    exact ⟨rfl, rfl, 0, by simp, by simp [redLoop], by simp [redLoop], hW⟩
+  | fuel + 1, qn, W, Qup, ok, h1, h2, hW => by
+    unfold redLoop
+    by_cases hc : dn - 1 < qn
+    · rw [if_pos hc]
+      simp only []
+      obtain ⟨sh, hsh⟩ : ∃ sh, sh = min dn (qn - dn + 1) := ⟨_, rfl⟩
+      rw [← hsh]
+      have hsh1 : 1 ≤ sh := by omega
+      have hshdn : sh ≤ dn := by omega
+      have hshq : sh ≤ qn - dn + 1 := by omega
+      have hP := Bpow_pos (qn - sh)
+      have hD0 : 0 < D := by have := Bpow_pos dn; omega
+      have eq : B ^ qn = B ^ sh * B ^ (qn - sh) := by rw [← pow_add]; congr 1; omega
+      have hWt : W / B ^ (qn - sh) < D * B ^ sh := by
+        rw [Nat.div_lt_iff_lt_mul hP, Nat.mul_assoc, ← eq]; exact hW
+      obtain ⟨s1, s2, s3⟩ := redStep_spec T dn sh (W / B ^ (qn - sh)) D hT hdn hsh1 hshdn hD hnorm hWt
+      generalize (if sh ≤ T then sbQr (dn + sh) dn (W / B ^ (qn - sh)) D
+        else dcDivQr T (dn + sh) dn (W / B ^ (qn - sh)) D) = r at *
+      have hqlt : r.q < B ^ sh := by
+        rw [s2, Nat.div_lt_iff_lt_mul hD0, Nat.mul_comm]; exact hWt
+      have hrlt : r.r < D := by rw [s3]; exact Nat.mod_lt _ hD0
+      have hdm := Nat.div_add_mod (W / B ^ (qn - sh)) D
+      rw [← s2, ← s3] at hdm
+      have hWdm := Nat.div_add_mod W (B ^ (qn - sh))
+      have hWm := Nat.mod_lt W hP
+      have hW' : W % B ^ (qn - sh) + B ^ (qn - sh) * r.r < D * B ^ (qn - sh) := by
+        have : B ^ (qn - sh) * (r.r + 1) ≤ B ^ (qn - sh) * D := Nat.mul_le_mul_left _ hrlt
+        nlinarith
+      have hok : (ok && r.ok) = ok := by rw [s1, Bool.and_true]
+      rw [hok]
+      obtain ⟨i1, i2, Qr, i3, i4, i5, i6⟩ := redLoop_spec T dn D hT hdn hD hnorm fuel (qn - sh)
+        (W % B ^ (qn - sh) + B ^ (qn - sh) * r.r) (Qup * B ^ sh + r.q) ok (by omega) (by omega) hW'
+      refine ⟨i1, i2, r.q * B ^ (qn - sh - (dn - 1)) + Qr, ?_, ?_, ?_, i6⟩
+      · have e : B ^ (qn - (dn - 1)) = B ^ sh * B ^ (qn - sh - (dn - 1)) := by rw [← pow_add]; congr 1; omega
+        rw [e]
+        have : (r.q + 1) * B ^ (qn - sh - (dn - 1)) ≤ B ^ sh * B ^ (qn - sh - (dn - 1)) := Nat.mul_le_mul_right _ hqlt
+        nlinarith
+      · rw [i4]
+        have e : B ^ (qn - (dn - 1)) = B ^ sh * B ^ (qn - sh - (dn - 1)) := by rw [← pow_add]; congr 1; omega
+        rw [e]; ring
+      · have e : B ^ (qn - sh) = B ^ (qn - sh - (dn - 1)) * B ^ (dn - 1) := by rw [← pow_add]; congr 1; omega
+        have hthis : W = (D * r.q + r.r) * B ^ (qn - sh) + W % B ^ (qn - sh) := by rw [hdm]; linarith
+        generalize (redLoop T dn D fuel (qn - sh) (W % B ^ (qn - sh) + B ^ (qn - sh) * r.r) (Qup * B ^ sh + r.q) ok).2.1 = Wf at *
+        generalize W % B ^ (qn - sh) = Wl at *
+        rw [e] at hthis i5
+        generalize B ^ (qn - sh - (dn - 1)) = E at *
+        generalize B ^ (dn - 1) = Bd at *
+        calc W = D * r.q * (E * Bd) + (Wl + E * Bd * r.r) := by rw [hthis]; ring
+          _ = D * r.q * (E * Bd) + (Qr * D * Bd + Wf) := by rw [i5]
+          _ = (r.q * E + Qr) * D * Bd + Wf := by ring
+    · rw [if_neg hc]
+      have e : qn = dn - 1 := by omega
+      subst e
+      exact ⟨rfl, rfl, 0, by simp, by simp, by simp, hW⟩
+
 end Mpir.DcDivappr
